@@ -89,7 +89,7 @@ __CPROVER_decreases(self->num_levels - height)
 }
 
 update = {
-    "name": "update", "file": F, "members": MEMBERS, "match": r"void %s::update\(FwdVector&& point\)" % DS, "sig": "void update(struct density* self, const struct point* point)", "refs": ["point"], "nloops": 1,
+    "name": "update", "file": F, "members": MEMBERS, "match": r"void %s::update\(FwdVector&& point\)" % DS, "sig": "void update(struct density* self, const struct point* point)", "refs": ["point"], "nloops": 1, "loop_heads": {1: r"while\s*\(self->num_retained_ >="},
     "pre_rules": [(r"point\.size\(\)", "point.size_", 1), (r"levels_\[0\]\.push_back\(std::forward<FwdVector>\(point\)\);", "LEVEL_PUSH(self, 0);", 1)],
     "rules": LV, "methods": ["compact"], "propagate": ["compact"],
     "contract": BASE + "__CPROVER_requires(__CPROVER_is_fresh(point, sizeof(*point)) && INV(self) && self->k_ >= 1 && self->n_ < UINT64_MAX)\n" + FRAME.replace("verif_exc,", "verif_exc, self->n_,") + r'''
@@ -111,6 +111,7 @@ is_empty = {
 
 merge = {
     "name": "merge", "file": F, "members": MEMBERS, "match": r"void %s::merge\(FwdSketch&& other\)" % DS, "sig": "void merge(struct density* self, const struct density* other)", "refs": ["other"], "nloops": 3,
+    "loop_heads": {1: r"while\s*\(self->num_levels <", 2: r"for\s*\(unsigned height", 3: r"while\s*\(self->num_retained_ >="},
     "pre_rules": [(r"other\.is_empty\(\)", "is_empty(&other)", 1), (r"other\.levels_\.size\(\)", "other.num_levels", 2),
                   (r"std::copy\(\s*forward_begin\(conditional_forward<FwdSketch>\(other\.levels_\[([^\]]*)\]\)\),\s*forward_end\(conditional_forward<FwdSketch>\(other\.levels_\[\1\]\)\),\s*back_inserter\(levels_\[([^\]]*)\]\)\s*\);",
                    r"LEVEL_APPEND(self, \2, other.level_size[\1]);", 1)],
